@@ -116,6 +116,9 @@ struct World {
 	// applies an enabled operation to the real objects; returns false and sets `problem` when an oracle fails
 	bool apply(const Op& o) {
 		problem.clear();
+		// entry FP state chosen by the harness per operation (rounding mode varies with the operation; masks/flags default): the
+		// documented results may not depend on it, and the pipelined interface may leave it changed, so it is set before EVERY call
+		_mm_setcsr(0x1F80 | (((unsigned)(o.code + o.a + o.b) & 3) << 13));
 		switch (o.code) {
 		case ALLOC_CACHE: { HIST_TRACK; HIST_OWNER(10 + o.a); cache[o.a] = randomx_alloc_cache(o.b ? RANDOMX_FLAG_JIT : RANDOMX_FLAG_DEFAULT); cache_jit[o.a] = o.b; cache_key[o.a] = -1; ++cache_gen[o.a]; if (!cache[o.a]) problem = "randomx_alloc_cache returned NULL"; break; }
 		case INIT_CACHE: { HIST_TRACK; if (cache_key[o.a] != o.b) ++cache_gen[o.a]; randomx_init_cache(cache[o.a], A->keys[o.b].data(), A->keys[o.b].size()); cache_key[o.a] = o.b; break; }
